@@ -321,6 +321,7 @@ func (e *Engine) dischargePath(fn *ssa.Function, po *pathOutcome, pathNo int, w 
 			os.WriteFile(filepath.Join(d, fmt.Sprintf("%s_p%d_%s_%d_%s.smt2", fn.Name(), pathNo, sanitize(ob.ID), n, be)), []byte(q.Script+"(check-sat)\n"), 0o644)
 		}
 	}
+	samplesKept := 0
 	submit := func(p *pending) bool {
 		for ; p.be < len(bes); p.be++ {
 			be := bes[p.be]
@@ -331,7 +332,10 @@ func (e *Engine) dischargePath(fn *ssa.Function, po *pathOutcome, pathNo int, w 
 				continue
 			}
 			p.r.Backend = be.String()
-			p.r.Sample = q.Script
+			if samplesKept < 8 { // (a handful of query heads go into the evidence; keeping every script costs tens of GB)
+				p.r.Sample = q.Script
+				samplesKept++
+			}
 			dump(p.ob, be, q, p.idx)
 			scripts := []string{q.Script}
 			if be == BackendINT {
@@ -344,87 +348,98 @@ func (e *Engine) dischargePath(fn *ssa.Function, po *pathOutcome, pathNo int, w 
 		}
 		return false
 	}
-	var pend []*pending
-	for _, ob := range obls {
-		p := &pending{idx: len(pend), ob: ob, r: OblResult{Harness: fn.Name(), ID: ob.ID, Kind: ob.Kind, Where: ob.Where, Path: pathNo}}
-		all := append(append([]*Term(nil), ob.Path...), ob.Cond)
-		p.r.Symbolic = hasSymbolic(all)
-		if ob.Cond != nil && ob.Cond.IsTrue() && ob.Expect != "sat" {
-			p.r.Verdict = "discharged"
-			p.r.Note = "trivially true after simplification"
-		} else if !submit(p) {
-			p.r.Verdict = "unknown"
+	// obligations are lowered and submitted in windows: the scripts of tens of thousands of queued queries would
+	// otherwise all be alive at once (tens of GB for the thorough tier of the vector kernels)
+	const window = 512
+	nextIdx := 0
+	for start := 0; start < len(obls); start += window {
+		end := start + window
+		if end > len(obls) {
+			end = len(obls)
 		}
-		pend = append(pend, p)
-	}
-	for _, p := range pend {
-		if p.r.Verdict != "" {
-			res = append(res, p.r)
-			continue
-		}
-		verdict := <-p.ch
-		for verdict.Result == "unknown" {
-			if len(verdict.Errors) > 0 {
-				p.r.Note += strings.Join(verdict.Errors, "; ")
+		var pend []*pending
+		for _, ob := range obls[start:end] {
+			p := &pending{idx: nextIdx, ob: ob, r: OblResult{Harness: fn.Name(), ID: ob.ID, Kind: ob.Kind, Where: ob.Where, Path: pathNo}}
+			nextIdx++
+			all := append(append([]*Term(nil), ob.Path...), ob.Cond)
+			p.r.Symbolic = hasSymbolic(all)
+			if ob.Cond != nil && ob.Cond.IsTrue() && ob.Expect != "sat" {
+				p.r.Verdict = "discharged"
+				p.r.Note = "trivially true after simplification"
+			} else if !submit(p) {
+				p.r.Verdict = "unknown"
 			}
-			p.be++
-			if !submit(p) {
-				break
-			}
-			verdict = <-p.ch
+			pend = append(pend, p)
 		}
-		r, ob := &p.r, p.ob
-		r.Solver, r.Seconds = verdict.Solver, verdict.Seconds
-		switch {
-		case ob.Expect == "sat":
-			if verdict.Result == "sat" {
-				r.Verdict = "witness-ok"
-			} else if verdict.Result == "unsat" && ob.Kind == "reach" {
-				// a value the property requires to be possible is excluded for every input inside the bound
+		for _, p := range pend {
+			if p.r.Verdict != "" {
+				res = append(res, p.r)
+				continue
+			}
+			verdict := <-p.ch
+			for verdict.Result == "unknown" {
+				if len(verdict.Errors) > 0 {
+					p.r.Note += strings.Join(verdict.Errors, "; ")
+				}
+				p.be++
+				if !submit(p) {
+					break
+				}
+				verdict = <-p.ch
+			}
+			r, ob := &p.r, p.ob
+			r.Solver, r.Seconds = verdict.Solver, verdict.Seconds
+			switch {
+			case ob.Expect == "sat":
+				if verdict.Result == "sat" {
+					r.Verdict = "witness-ok"
+				} else if verdict.Result == "unsat" && ob.Kind == "reach" {
+					// a value the property requires to be possible is excluded for every input inside the bound
+					r.Verdict = "unconfirmed"
+					r.Note += " required outcome is unreachable for every input inside the bound (solver: unsat)"
+					e.confirmBySearch(fn, x, ob, r, opts)
+				} else if verdict.Result == "unsat" {
+					r.Verdict = "vacuous"
+				} else {
+					r.Verdict = "unknown"
+				}
+			case verdict.Result == "unsat":
+				r.Verdict = "discharged"
+			case verdict.Result == "sat":
+				// obtain a model of the complete query (all assumptions, all inputs)
+				be := bes[p.be]
+				q := BuildQuery(x.ts, be, ob.ID, ob.Path, ob.Cond, x.inputs, verdict.Profile)
+				dump(ob, be, q, 9000+p.idx)
+				full := <-opts.Pool.Submit([]string{q.Script}, q.Vars, budgets)
 				r.Verdict = "unconfirmed"
-				r.Note += " required outcome is unreachable for every input inside the bound (solver: unsat)"
-				e.confirmBySearch(fn, x, ob, r, opts)
-			} else if verdict.Result == "unsat" {
-				r.Verdict = "vacuous"
-			} else {
+				if ob.Kind == "range" {
+					r.Note += " tracked-range obligation of the algebraic model (engine-only: the bound is on intermediate values, not on inputs) [" + ob.Where + "]"
+					e.confirmByNativeRun(fn, x, ob, r, opts)
+				} else if ob.Kind == "separation" {
+					r.Note += " write-set separation obligation (engine-only: a written object is shared between the two parties; natively this is a potential data race, not a reproducible failure)"
+				} else if ob.Kind == "lemma" {
+					r.Model = full.Model
+					r.Note += " stage lemma refuted by the solver (engine-only obligation)"
+					e.confirmBySearch(fn, x, ob, r, opts)
+				} else if full.Result == "sat" {
+					r.Model = full.Model
+					e.confirmNatively(fn, x, ob, r, opts)
+					if r.Verdict == "unconfirmed" && x.hasSearch(ob.ID) {
+						// the model's values enter through a stub that does not exist natively (e.g. the normal
+						// deviate of the Gaussian sampler): look for an end-to-end witness with the registered search
+						e.confirmBySearch(fn, x, ob, r, opts)
+					}
+				} else if full.Result == "unsat" {
+					r.Verdict = "discharged"
+					r.Note += " (sat only without unrelated assumptions; unsat with the full path condition)"
+				} else {
+					r.Note += " counterexample of the reduced query could not be completed to a full model"
+				}
+			default:
 				r.Verdict = "unknown"
 			}
-		case verdict.Result == "unsat":
-			r.Verdict = "discharged"
-		case verdict.Result == "sat":
-			// obtain a model of the complete query (all assumptions, all inputs)
-			be := bes[p.be]
-			q := BuildQuery(x.ts, be, ob.ID, ob.Path, ob.Cond, x.inputs, verdict.Profile)
-			dump(ob, be, q, 9000+p.idx)
-			full := <-opts.Pool.Submit([]string{q.Script}, q.Vars, budgets)
-			r.Verdict = "unconfirmed"
-			if ob.Kind == "range" {
-				r.Note += " tracked-range obligation of the algebraic model (engine-only: the bound is on intermediate values, not on inputs) [" + ob.Where + "]"
-				e.confirmByNativeRun(fn, x, ob, r, opts)
-			} else if ob.Kind == "separation" {
-				r.Note += " write-set separation obligation (engine-only: a written object is shared between the two parties; natively this is a potential data race, not a reproducible failure)"
-			} else if ob.Kind == "lemma" {
-				r.Model = full.Model
-				r.Note += " stage lemma refuted by the solver (engine-only obligation)"
-				e.confirmBySearch(fn, x, ob, r, opts)
-			} else if full.Result == "sat" {
-				r.Model = full.Model
-				e.confirmNatively(fn, x, ob, r, opts)
-				if r.Verdict == "unconfirmed" && x.hasSearch(ob.ID) {
-					// the model's values enter through a stub that does not exist natively (e.g. the normal
-					// deviate of the Gaussian sampler): look for an end-to-end witness with the registered search
-					e.confirmBySearch(fn, x, ob, r, opts)
-				}
-			} else if full.Result == "unsat" {
-				r.Verdict = "discharged"
-				r.Note += " (sat only without unrelated assumptions; unsat with the full path condition)"
-			} else {
-				r.Note += " counterexample of the reduced query could not be completed to a full model"
-			}
-		default:
-			r.Verdict = "unknown"
+			res = append(res, *r)
 		}
-		res = append(res, *r)
 	}
 	return res
 }
